@@ -695,9 +695,12 @@ def rule_path_entries_released(ctx, rep, rid: str, only_pred) -> None:
             else:
                 rep.bad(rid, key, f"{f.qual} pushes onto `{lst}` with `{short(c, 40)}` and can return through lines {[x.line for x in bad if x.line][:6]} without popping it (its other exits pop in a finally): the container stays on the path, so a second reference to it is reported as a cycle and every leftover uses up nesting budget", f"{f.module.rel}:{c.lineno}")
     if n == 0:
-        # the converters keep their path through a context manager (its cleanup is the pairing rule's obligation)
+        # the converters keep their path through a context manager (its cleanup is the pairing rule's obligation); read
+        # as the statements it stands for, that is a registration followed by a try whose finally removes the entry
         uses_with = any(isinstance(w, ast.With) for f in ctx.tree.funcs if not isinstance(f.node, ast.Lambda) and only_pred(f.qual) for w in f.own_nodes())
-        if not uses_with:
+        guarded_try = any(isinstance(w, ast.Try) and any(isinstance(x, ast.Delete) or (isinstance(x, ast.Call) and isinstance(x.func, ast.Attribute) and x.func.attr in ("pop", "discard", "remove")) for fb in w.finalbody for x in ast.walk(fb)) for f in ctx.tree.funcs if not isinstance(f.node, ast.Lambda) and only_pred(f.qual) for w in f.own_nodes())
+        uses_with = uses_with or any(getattr(f.node, "_inlined_cms", None) for f in ctx.tree.funcs if not isinstance(f.node, ast.Lambda) and only_pred(f.qual))
+        if not uses_with and not guarded_try:
             raise AnalysisError(f"{rid}: no push/pop pair and no guard context manager found in the converters")
         rep.ok(rid, "converters:path-through-context-manager", {"note": "no explicit push/pop: the path is kept by a context manager"})
         rep.ok(rid, "converters:path-through-context-manager:2", {"note": "see the context-manager cleanup rule"})
